@@ -40,12 +40,14 @@ def run_demo_once(wt, mdir, meta):
     cmd = cmd.replace("<repo>", wt).replace("$REPO", wt).replace("${REPO}", wt)
     if not cmd:
         return None, "no demo command"
-    if re.search(r"\bcp\s+(\./)?[\w.\-]+_test\.go\s", cmd) or re.search(r"\bcp\s+(\./)?[\w.\-]+\.go\s", cmd):
-        cwd = mdir          # the command copies the demonstration itself, relative to the mutation directory
-    elif "cp " in cmd:
-        cwd = wt            # absolute source, destination relative to the repository root
-    else:
-        cwd = wt
+    # a relative source of a `cp` that exists in the mutation directory is the demonstration itself: make it
+    # absolute, then everything runs from the root of the tree under test
+    def _abs(m):
+        f = m.group(2)
+        return "cp " + (os.path.join(mdir, f) if os.path.exists(os.path.join(mdir, f)) else (m.group(1) or "") + f) + " "
+    cmd = re.sub(r"\bcp\s+(\./)?([\w.\-]+\.go)\s+", _abs, cmd)
+    cwd = wt
+    if "cp " not in cmd:
         for f in os.listdir(mdir):
             if f.endswith("_test.go"):
                 shutil.copyfile(os.path.join(mdir, f), os.path.join(wt, pkg, f))
